@@ -440,3 +440,27 @@ CHECKS["C05"] = num_check("C05", ["-lfftw3", "-lfftw3f"],
     "x grouping/executor matrix (block size 1 delivers the children of a parent in several batches, single group in one); oracle as C04: "
     "finite, error below the per-order bound, error shrinking with the order, equal to rounding across groupings/executors/batches, "
     "linear in the charges.")
+
+
+# ---- the clauses of C02/C06/C07/C16 about the other executors / trees are decided by the drivers that build those objects ----
+_TSMPER_B = lambda mode: {"name": "tsmper_" + mode, "sources": ["drivers/tsmper_driver.cpp"], "flags": ["-O1", "-g", "-fno-access-control", "-DVF_" + mode]}
+CHECKS["C02"]["builds"] = CHECKS["C02"]["builds"] + [_TSMPER_B("C09"), _TSMPER_B("C10")]
+CHECKS["C02"]["runs"] = CHECKS["C02"]["runs"] + [
+    {"driver": "tsmper_C09", "args": ["--mode", "C09"], "slices": 64, "slice_subset": 16, "tag": "tsm", "only_keys": "(tsm-)?(call|geometry):.*"},
+    {"driver": "tsmper_C10", "args": ["--mode", "C10"], "slices": 64, "slice_subset": 32, "tag": "per", "only_keys": "(tsm-)?(call|geometry):.*"}]
+CHECKS["C02"]["rule"] += (" Other executors: the same per-call predicates and exact potentials through the sequential target/source executor and the "
+                          "periodic four-call sequence with both top trees (subsets of the C09/C10 spaces; only call:/geometry: keys count here); "
+                          "the OpenMP, Specx and StarPU executors run with the predicates on under the schedule explorer of C03.")
+for _pid, _keys, _what in (("C06", "(source|target)-construction:.*", "construction of the source and target trees of the target/source variant"),
+                           ("C07", "(source|target)-structure:.*", "structure of the source and target trees of the target/source variant"),
+                           ("C16", "(source|target)-lookup:.*", "lookups on the source and target trees of the target/source variant")):
+    CHECKS[_pid]["builds"] = CHECKS[_pid]["builds"] + [_TSMPER_B("C09")]
+    CHECKS[_pid]["runs"] = CHECKS[_pid]["runs"] + [{"driver": "tsmper_C09", "args": ["--mode", "C09"], "slices": 64, "slice_subset": 16, "tag": "tsm", "only_keys": _keys}]
+    CHECKS[_pid]["rule"] += " Plus: " + _what + " on a subset of the C09 space (slices 0..15 of 64)."
+CHECKS["C07"]["builds"] = CHECKS["C07"]["builds"] + [{"name": "hist_C13", "sources": ["drivers/hist_driver.cpp"], "flags": ["-O1", "-g", "-DVF_C13"]}]
+CHECKS["C07"]["runs"] = CHECKS["C07"]["runs"] + [{"driver": "hist_C13", "args": ["--mode", "C13"], "slices": 32, "tag": "rebuild", "only_keys": "rebuild:structure:.*"}]
+CHECKS["C07"]["rule"] += " Trees after rebuild: the structure invariants after every rebuild of the C13 history search (only rebuild:structure: keys count here)."
+CHECKS["C06"]["rule"] += (" The clause 'execution of any executor never alters positions, indices or cell headers' for the task-based executors is "
+                          "decided by C03/C09: every terminal state of the explorer must have all buffers, symbolic ones included, byte-identical to the sequential run.")
+CHECKS["C08"]["rule"] += (" Other executors: C03 proves each task-based executor bit-identical to the sequential one for the same grouping, so grouping "
+                          "independence of the sequential executor carries over.")
